@@ -12,7 +12,9 @@ RULE = (
     "Cases: function in {rand_argmax, rand_argmin, simple_batch(max), "
     "simple_batch(proportional)} x array of 1-3 dims (<=24 elements) drawn "
     "from a small value pool {-inf,-2,-1,0,0.5,1,3,+inf,NaN} (ties by "
-    "construction) or arbitrary floats x axis x batch_size x seed. "
+    "construction) or arbitrary floats, or (rand_arg*) an integer typed "
+    "array (int32, int64 incl. neighbours beyond 2**53, uint8, uint64) "
+    "compared exactly x axis x batch_size x seed x memory layout. "
     "Distinct = distinct case hash; non-trivial = at least two tied optima "
     "along the deciding slice, or (simple_batch) batch_size>=2 with at least "
     "one NaN entry or a tie among the selected values.")
@@ -20,8 +22,10 @@ ASSUMPTIONS = [
     "all-NaN slices are excluded for rand_argmax/rand_argmin (undefined)",
     "simple_batch rejects infinities with ValueError (check_array contract); "
     "this clean rejection is asserted, not treated as a violation",
-    "proportional mode: 1-D non-negative weights with at least batch_size "
-    "positive entries (numpy.random.choice precondition)",
+    "proportional mode: 1-D non-negative weights; where batch_size exceeds "
+    "the number of positive weights numpy's ValueError is accepted (the "
+    "batch length and 'never a zero-weight entry' cannot both hold), a "
+    "returned zero-weight entry is a violation",
     "tie fairness is checked on the fixed seeds 0..127 for <=4 tied optima",
 ]
 PROFILE = {
